@@ -3,8 +3,15 @@
 #ifndef H_CFG
 #error "H_CFG must name the configuration traits type"
 #endif
+#ifdef H_SERIALIZE
+#include <boost/archive/text_oarchive.hpp>
+#include <boost/archive/text_iarchive.hpp>
+#include <boost/archive/binary_oarchive.hpp>
+#include <boost/archive/binary_iarchive.hpp>
+#endif
 int main(int argc, char** argv) {
   typedef Def<H_CFG> D;
+  typedef typename D::M_r M;
   D::fill_ids();
   H::fill_paths();
   if (argc > 1 && std::string(argv[1]) == "--ids") {
@@ -15,38 +22,69 @@ int main(int argc, char** argv) {
     }
     return 0;
   }
-  auto fsm_p = std::make_unique<typename D::M_r>();
+  std::unique_ptr<M> objs[4];
+  objs[0] = std::make_unique<M>();
   std::string line;
   while (std::getline(std::cin, line)) {
     if (line.empty()) continue;
     std::istringstream is(line);
     std::string op; is >> op;
-    int ty = 0, pay = 0;
+    int target = 0;
+    if (op[0] == '@') { target = std::atoi(op.c_str() + 1); is >> op; }
+    int ty = 0, pay = 0, dst = 0, src = 0;
     std::string tok;
     if (op == "P" || op == "Q") { is >> ty >> pay; }
+    if (op == "COPY" || op == "ASSIGN" || op == "MOVE" || op == "SAVELOAD") { is >> dst >> src; }
     is >> tok;  // the first '|'
     H::parse_val(is);
     H::parse_plan(is);
     H::cbn() = 0;
     try {
-      typename D::M_r& fsm = *fsm_p;
-      if (op == "RESET") { fsm_p = std::make_unique<typename D::M_r>(); }
-      else if (op == "S") fsm.start();
-      else if (op == "T") fsm.stop();
-      else if (op == "P") { int r = H::process(fsm, ty, pay); std::printf("R %d\n", r); }
-      else if (op == "Q") H::enqueue(fsm, ty, pay);
-      else if (op == "D") H_CFG::drain(fsm, 0);
-      else if (op == "D1") H_CFG::drain(fsm, 1);
-      else { std::printf("HARNESS-ERROR unknown op %s\n", op.c_str()); return 2; }
+      if (op == "RESET") { objs[target] = std::make_unique<M>(); }
+      else if (op == "COPY") { objs[dst] = std::make_unique<M>(static_cast<const M&>(*objs[src])); }
+      else if (op == "ASSIGN") { *objs[dst] = static_cast<const M&>(*objs[src]); }
+#ifdef H_MP11
+      else if (op == "MOVE") { objs[dst] = std::make_unique<M>(std::move(*objs[src])); }
+#endif
+#ifdef H_SERIALIZE
+      else if (op == "SAVELOAD") {
+        std::stringstream ss;
+        { boost::archive::text_oarchive oa(ss); oa << static_cast<const M&>(*objs[src]); }
+        objs[dst] = std::make_unique<M>();
+        { boost::archive::text_iarchive ia(ss); ia >> *objs[dst]; }
+        // the binary format must give the same object: loaded into a scratch object and compared by its snapshot below
+        std::stringstream sb;
+        { boost::archive::binary_oarchive ob(sb); ob << static_cast<const M&>(*objs[src]); }
+        auto scratch = std::make_unique<M>();
+        { boost::archive::binary_iarchive ib(sb); ib >> *scratch; }
+        std::printf("#BINARY-SNAP-BEGIN\n"); D::snap_r(*scratch, "#SNAPB"); std::printf("#BINARY-SNAP-END\n");
+      }
+#endif
+      else {
+        M& fsm = *objs[target];
+        if (op == "S") fsm.start();
+        else if (op == "T") fsm.stop();
+        else if (op == "P") { int r = H::process(fsm, ty, pay); std::printf("R %d\n", r); }
+        else if (op == "Q") H::enqueue(fsm, ty, pay);
+        else if (op == "D") H_CFG::drain(fsm, 0);
+        else if (op == "D1") H_CFG::drain(fsm, 1);
+        else { std::printf("HARNESS-ERROR unknown op %s\n", op.c_str()); return 2; }
+      }
     } catch (H::harness_error& e) {
       std::printf("HARNESS-ERROR %s\n", e.what()); return 2;
     } catch (std::exception&) {
       std::printf("ESC\n");
     }
-    D::snap_r(*fsm_p);
-#define X(N) std::printf("FLAG %d or=%d and=%d\n", N, (int)H_CFG::template flag_or<Flag<N>>(*fsm_p), (int)H_CFG::template flag_and<Flag<N>>(*fsm_p));
-    H_FLAGS(X)
+    for (int k = 0; k < 4; ++k) {
+      if (!objs[k]) continue;
+      std::string tag = k == 0 ? "SNAP" : ("SNAP@" + std::to_string(k));
+      D::snap_r(*objs[k], tag.c_str());
+      if (k == 0) {
+#define X(N) std::printf("FLAG %d or=%d and=%d\n", N, (int)H_CFG::template flag_or<Flag<N>>(*objs[0]), (int)H_CFG::template flag_and<Flag<N>>(*objs[0]));
+        H_FLAGS(X)
 #undef X
+      }
+    }
     std::printf("--\n");
     std::fflush(stdout);
   }
